@@ -105,7 +105,7 @@ theorem parseDoc_render_safe_ge (cfg : MdCfg) (hcore : coreCfgB cfg = true) (hat
   rw [List.all_eq_true] at this ⊢
   exact fun t ht => shp_refined templates templates_core _ t (this t ht)
 
-/-- the six plugin-free configurations: no hypothesis but the result of the parse -/
+/-- the configurations of `coreNames`: no hypothesis but the result of the parse -/
 theorem parseDoc_refinedOk_core (n : String) (hn : n ∈ coreNames) (cfg : MdCfg) (hc : findCfg n = some cfg) (s : Str)
     (toks : List Json) (h : parseDoc cfg s = .ok toks) : toks.all (refinedOk templates (wfFuel cfg)) = true := by
   have h1 := coreCfgs_ok n hn
@@ -123,6 +123,25 @@ the model parses it and the result satisfies `refinedOk` (kernel-checked) -/
 example : ((findCfg "core").map (fun cfg =>
     match parseDoc cfg "# a\n\n[x](<u\"b> 't<')\n\n```a<b\nc\n```\n".toList with
     | .ok toks => toks.length == 5 && toks.all (refinedOk templates (wfFuel cfg))
+    | .error _ => false)) = some true := by decide +kernel
+
+/-- some token of the tree (up to depth 5) has type `ty` -/
+def hasType (ty : String) : Nat → Json → Bool
+  | 0, _ => false
+  | k + 1, t => t.type == ty || (t.getArr "children").any (hasType ty k)
+
+/-- non-vacuity for configurations with plugins: the plugin handler fires, the tree is in the grammar and satisfies
+`refinedOk` (kernel-checked) -/
+example : ((findCfg "only-strikethrough").map (fun cfg =>
+    match parseDoc cfg "~~a *b*~~ x\n".toList with
+    | .ok toks => toks.any (hasType "strikethrough" 5) && wfTokens toks cfg.maxNested &&
+        toks.all (refinedOk templates (wfFuel cfg))
+    | .error _ => false)) = some true := by decide +kernel
+
+example : ((findCfg "only-math").map (fun cfg =>
+    match parseDoc cfg "$$\nx<y\n$$\n\n$a<b$\n".toList with
+    | .ok toks => toks.any (hasType "block_math" 5) && toks.any (hasType "inline_math" 5) &&
+        wfTokens toks cfg.maxNested && toks.all (refinedOk templates (wfFuel cfg))
     | .error _ => false)) = some true := by decide +kernel
 
 end Model
